@@ -3,14 +3,28 @@ package main
 import (
 	"fmt"
 	"go/types"
+	"regexp"
+	"strings"
 )
 
 // lemmaObligation turns a stand-alone lemma (a closed spec formula over the contracts' vocabulary)
 // into an obligation: the formula must be valid.
+//
+// The outer universal quantifiers and the implications of the lemma are skolemised here
+// (forall xs :: P ==> forall ys :: Q ==> C   becomes   constants xs, ys; premises P, Q; goal C), so that
+// instantiation hints can mention the bound names. A lemma may end with
+//
+//	by inst i := e1, e2 ; j := e3
+//
+// which adds, for every universally quantified premise conjunct whose bound variable is called i, the
+// ground instances at e1 and e2 (solvers do not find these byte-offset instances unaided).
 func lemmaObligation(w *World, specs *Specs, key string) (obls []*Obligation, err error) {
 	lm := specs.Lemmas[key]
 	if lm == nil {
 		return nil, fmt.Errorf("lemma %s not found", key)
+	}
+	if lm.Axiom {
+		return nil, fmt.Errorf("%s is an axiom, not a lemma", lm.Name)
 	}
 	c := newCtx(w, specs, "lemma")
 	var pkg *types.Package
@@ -31,11 +45,99 @@ func lemmaObligation(w *World, specs *Specs, key string) (obls []*Obligation, er
 		}
 	}()
 	st := &State{env: map[types.Object]Val{}, gh: map[string]Val{}}
-	env := &SpecEnv{names: map[string]Val{}, pkg: pkg, typeArgs: map[string]types.Type{}}
-	goal := f.specBool(st, lm.Expr, env)
-	o := &Obligation{Name: shortKey(lm.PkgPath+".x")[:len(shortKey(lm.PkgPath+".x"))-1] + "lemma:" + lm.Name, Kind: "lemma", Decls: len(c.decls), PC: st.pc, Goal: goal, Src: lm.Src, Ctx: c, Expect: "unsat"}
-	if lm.Axiom {
-		return nil, fmt.Errorf("%s is an axiom, not a lemma", lm.Name)
+	env := &SpecEnv{names: map[string]Val{}, pkg: pkg, typeArgs: map[string]types.Type{}, st: st}
+
+	// skolemise
+	var premises []string
+	cur := lm.Expr
+	for {
+		switch x := cur.(type) {
+		case *SQuant:
+			if !x.Forall {
+				goto done
+			}
+			for _, v := range x.Vars {
+				if v.Type == "int" {
+					n := c.fresh("sk_"+v.Name, "Int")
+					env.names[v.Name] = Val{T: n}
+					continue
+				}
+				t := f.resolveType(env, v.Type)
+				n := c.fresh("sk_"+v.Name, c.sorts.SortOf(t))
+				env.names[v.Name] = Val{T: n, Ty: t}
+				premises = append(premises, c.sorts.TypeInv(n, t, 0)...)
+			}
+			cur = x.Body
+			continue
+		case *SBinary:
+			if x.Op == "==>" {
+				premises = append(premises, f.specBool(st, x.X, env))
+				cur = x.Y
+				continue
+			}
+		}
+		break
 	}
+done:
+	goal := f.specBool(st, cur, env)
+	// instantiation hints
+	for _, h := range lm.Insts {
+		kv := strings.SplitN(h, ":=", 2)
+		if len(kv) != 2 {
+			return nil, fmt.Errorf("lemma %s: bad inst hint %q", lm.Name, h)
+		}
+		vname := strings.TrimSpace(kv[0])
+		for _, ts := range splitTop(kv[1]) {
+			e, perr := parseSpecExpr(ts)
+			if perr != nil {
+				return nil, fmt.Errorf("lemma %s: inst hint: %v", lm.Name, perr)
+			}
+			tv := f.specEval(e, env)
+			for _, p := range premises {
+				premises = append(premises, instantiateForalls(p, vname, tv.T)...)
+			}
+		}
+	}
+	pc := append(append([]string(nil), st.pc...), premises...)
+	name := shortKey(lm.PkgPath+".x")
+	name = name[:len(name)-1] + "lemma:" + lm.Name
+	o := &Obligation{Name: name, Kind: "lemma", Decls: len(c.decls), PC: pc, Goal: goal, Src: lm.Src, Ctx: c, Expect: "unsat"}
 	return []*Obligation{o}, nil
+}
+
+// instantiateForalls finds the conjuncts of term that are (forall ((v!qN Int)) body) with bound name
+// v and returns body[v := inst] for each.
+func instantiateForalls(term, v, inst string) []string {
+	term = strings.TrimSpace(term)
+	args := splitSexpArgs(term)
+	if len(args) == 0 {
+		return nil
+	}
+	var out []string
+	switch args[0] {
+	case "and":
+		for _, a := range args[1:] {
+			out = append(out, instantiateForalls(a, v, inst)...)
+		}
+	case "forall":
+		if len(args) != 3 {
+			return nil
+		}
+		bs := splitSexpArgs(args[1])
+		if len(bs) != 1 {
+			return nil
+		}
+		b := splitSexpArgs(bs[0])
+		if len(b) != 2 || b[1] != "Int" || !strings.HasPrefix(b[0], sanitize(v)+"!q") {
+			return nil
+		}
+		re := regexp.MustCompile(`(^|[\s()])` + regexp.QuoteMeta(b[0]) + `($|[\s()])`)
+		body := args[2]
+		rep := strings.ReplaceAll(inst, "$", "$$")
+		for re.MatchString(body) {
+			body = re.ReplaceAllString(body, "${1}"+rep+"${2}")
+		}
+		out = append(out, body)
+	}
+	return out
 }
